@@ -37,7 +37,7 @@ def run(ctx):
         res = npx.run_model(ctx, mr, coverage=not ctx.quick)
         thin = (lambda inp: 4 if (inp["engine"] == "hash" and inp["k"] >= 2) else 1) if ctx.quick else \
                (lambda inp: 6 if (inp["engine"] == "hash" and inp["k"] >= 3) else 1)
-        npx.replay_emitted(ctx, res, [nc.AA], thin=thin)
+        npx.replay_emitted(ctx, res, [nc.AA], thin=thin, budget=None if ctx.quick else 60000)
     ctx.exhaustive = True
     sessions, sid = [], 0
     sub = "ACDHIY"
